@@ -17,6 +17,5 @@ Definition items : list (string * kind) := [
   ("aisle", FieldCell);
   ("aisle", UnsafeBlock);
   ("aisle", UnsafeBlock);
-  ("analysis", StaticInterior);
   ("quantity", StaticLazyLock)
 ].
